@@ -77,11 +77,17 @@ def _integrate(f, p, self_test=True):
         val2, err2 = head(m1 + 1)
         total_err = max(total_err, abs(val - val2))
     if p["cutoff_type"] != "hard":
-        # split the tail so that the oscillatory part is resolved
-        for a, b in ((wc, 8.0 * wc), (8.0 * wc, np.inf)):
+        # finite dyadic pieces up to where the cutoff function is < 1e-27
+        # (no infinite-range rule: it is unreliable on oscillating
+        # integrands); each piece resolves its own oscillations
+        top = 64.0 if p["cutoff_type"] == "exponential" else 8.0
+        a = wc
+        while a < top * wc:
+            b = min(2.0 * a, top * wc)
             v, e = _quad_checked(f, a, b)
             val += v
             total_err += e
+            a = b
     if not total_err <= 1e-9 * abs(val) + 1e-13:
         raise RefUnreliable(
             f"reference quadrature error estimate {total_err:.2e} for value "
